@@ -232,14 +232,14 @@ def gen_scripts(rng, tier):
     # A. all arrival orders of the responses to 1..3 concurrent calls, each with a fragmentation of every frame
     for n in (1, 2, 3):
         for order in itertools.permutations(range(n)):
-            for rep in range(1 if quick else 4):
+            for rep in range(2 if quick else 8):
                 pre = interleave(rng, [prefix_for(k, "sent") for k in range(n)])
                 steps = pre + [["resp", k, frag(rng)] for k in order]
                 if rep % 2:
                     steps.append(["cut", rng.choice(CUT_CLASSES), None])
                 add("orders", [False] * n, steps)
     # B. responses interleaved with the calls themselves (a response as soon as its request is out), duplicates, pushes
-    for i in range(12 if quick else 150):
+    for i in range(40 if quick else 300):
         n = rng.choice((2, 3, 3))
         seqs = [prefix_for(k, "sent") + [["resp", k, frag(rng)]] for k in range(n)]
         extra = [["push", "ok"]] if rng.random() < 0.4 else []
@@ -256,7 +256,7 @@ def gen_scripts(rng, tier):
         rng.shuffle(vectors)
         base = [v for v in vectors if len(v) < 3]
         three = [v for v in vectors if len(v) == 3]
-        vectors = base + three[:50]
+        vectors = base + three
     fi = 0
     for v in vectors:
         n = len(v)
@@ -279,7 +279,7 @@ def gen_scripts(rng, tier):
                 cvec.append((closers, v))
     if quick:
         rng.shuffle(cvec)
-        cvec = cvec[:45]
+        cvec = cvec[:130]
     for closers, v in cvec:
         n = len(v)
         pre = interleave(rng, [prefix_for(k, v[k]) for k in range(n)])
@@ -296,7 +296,7 @@ def gen_scripts(rng, tier):
                     pv.append((v, j))
     if quick:
         rng.shuffle(pv)
-        pv = pv[:14]
+        pv = pv[:40]
     for v, j in pv:
         n = len(v)
         pre = interleave(rng, [prefix_for(k, v[k]) for k in range(n)])
@@ -312,7 +312,7 @@ def gen_scripts(rng, tier):
             add("after-loss", [False] * n, [list(f)] + finale(rng, n, answer=False, final_cut=False))
             add("after-loss", [False] * (n - 1) + [True], [list(f)] + finale(rng, n, answer=False, final_cut=False))
     # G. seeded random schedules
-    for i in range(40 if quick else 1500):
+    for i in range(160 if quick else 2500):
         n = rng.choice((1, 2, 3, 3))
         closers = [rng.random() < 0.2 for _ in range(n)]
         seqs = [prefix_for(k, rng.choice(STAGES[1:])) for k in range(n)]
@@ -660,6 +660,14 @@ def child_main():
                     self.step(st)
                 self.pause_after = None
                 self.release_io.set()
+                # nobody stays parked at a harness gate (only happens when the implementation left the model's path)
+                with self.lock:
+                    for k in self.threads:
+                        self.released.add((k, "g1"))
+                        self.released.add((k, "g2"))
+                    self.lock.notify_all()
+                self.quiesce()
+                self.collect()
                 # the end of the script: a caller the model says has returned but that is still blocked after the deadline hangs
                 hung = []
                 for k in sorted(self.threads):
@@ -691,13 +699,22 @@ def child_main():
     sys.stderr = open(os.devnull, "w")
     import logging
     logging.disable(logging.CRITICAL)
+    hangs = 0
     for line in sys.stdin:
         line = line.strip()
         if not line:
             continue
         job = json.loads(line)
+        if hangs >= 2:
+            # two callers already hung for the full deadline in this worker: the verdict is settled, do not spend
+            # (deadline x remaining scripts) on more of the same
+            sys.stdout.write(json.dumps({"skipped": True}) + "\n")
+            sys.stdout.flush()
+            continue
         try:
             r = Play(job["script"]).run(set(job.get("expect_done", [])))
+            if r.get("hung"):
+                hangs += 1
         except Exception:
             import traceback
             r = {"error": traceback.format_exc()[-1500:]}
@@ -780,8 +797,11 @@ def compare(script, mv, r):
     blocked_model = sorted(k for k in invoked if k not in md)
     if blocked_model != r["blocked"]:
         return "blocked callers differ: model %r / implementation %r" % (blocked_model, r["blocked"])
-    if sorted(mv["pending"]) != r["pending"]:
-        return "pending_responses differs: model %r / implementation %r" % (sorted(mv["pending"]), r["pending"])
+    # futures left in pending_responses (R8's leak) are not the property's business as long as their callers are not
+    # waiting: an implementation that also fails / drops late registrations is fine.  Compared only as "no blocked owner".
+    stuck = [k for k in r["pending"] if k in r["blocked"] and k in md]
+    if stuck:
+        return "a registered future whose caller is still blocked: %r" % stuck
     lst = mv["lst"][0]
     lname = lst if isinstance(lst, str) else lst[0]
     if (lname == "exit") != r["exited"]:
@@ -814,10 +834,13 @@ def evaluate(chk, scripts, label="scripts"):
     jobs = [{"script": s, "expect_done": done_calls(mv)} for s, mv in zip(uniq, mvs)]
     res = run_impl(jobs)
     # the property's oracle: the verified checker on the OBSERVED history
-    checks = chk.run_model([sx(["check", len(s["calls"]), r.get("events", [])]) if "error" not in r else "(check 0 ())"
+    checks = chk.run_model([sx(["check", len(s["calls"]), r.get("events", [])]) if "events" in r else "(check 0 ())"
                             for s, r in zip(uniq, res)])
     prop_fail, corr_fail, infra = [], [], []
     for s, mv, r, c in zip(uniq, mvs, res, checks):
+        if r.get("skipped"):
+            chk.count("skipped_after_two_hangs_in_worker")
+            continue
         chk.count("evaluations")
         chk.count("scripts_" + s["tag"])
         if "error" in r:
@@ -842,6 +865,10 @@ def evaluate(chk, scripts, label="scripts"):
                               "pending_responses": r["pending"], "run_exited": r["exited"], "notes": r["notes"],
                               "check_history": cd["check"][0], "model_history": [sx(e) for e in mv["hist"]]})
             continue
+        if r["pending"]:
+            chk.count("scripts_ending_with_leaked_futures_impl")      # R8: late registrations stay in pending_responses
+        if mv["pending"]:
+            chk.count("scripts_ending_with_leaked_futures_model")
         why = compare(s, mv, r)
         if why is None and r["notes"]:
             why = "driver notes: " + "; ".join(r["notes"])
